@@ -97,6 +97,21 @@ def _scenarios(prop, rng):
                     if i % 5 == 0:
                         ops.append({'op': 'get', 'a': {'k': K(rng.randrange(i + 1)), 'fx': 0, 'ft': 0, 'mk': 'miss'}})
                 out.append((dict(policy=policy, cull=cull, limit=1000 * 1024, stats=False), ops))
+            # every way of using an item counts as a use: counters that are incremented / decremented / looked up after
+            # the bulk was stored outlive it, the counters nobody used go first
+            ops = [{'op': 'set', 'a': {'k': K(i), 'v': i + 1, 'ttl': [], 'tag': 0}} for i in range(6)]
+            ops.append({'op': 'tick', 'a': {'n': 1}})
+            ops += [{'op': 'set', 'a': {'k': K(i), 'v': 200000 + 40 * 100 + i, 'ttl': [], 'tag': 0}} for i in range(10, 17)]
+            ops.append({'op': 'tick', 'a': {'n': 1}})
+            ops += [{'op': 'incr', 'a': {'k': K(0), 'd': 2, 'df': []}, 'form': 0},
+                    {'op': 'incr', 'a': {'k': K(1), 'd': -1, 'df': [0]}, 'form': 1},
+                    {'op': 'get', 'a': {'k': K(2), 'fx': 0, 'ft': 0, 'mk': 'miss'}}]
+            for i in range(17, 31):
+                ops.append({'op': 'tick', 'a': {'n': 1}})
+                ops.append({'op': 'set', 'a': {'k': K(i), 'v': 200000 + 40 * 100 + i, 'ttl': [], 'tag': 0}})
+                if i % 4 == 0:
+                    ops.append({'op': 'len', 'a': {}})
+            out.append((dict(policy=policy, cull=2, limit=400 * 1024, stats=False), ops))
     return out
 
 
